@@ -860,6 +860,27 @@ func main() {
 			return true
 		})
 		w("Definition readBinlogEvent_make_copy : Z * Z := (%d, %d).", mk, cp)
+		// the statements of the packet reader and of the reader goroutine's loop, logging calls removed, as text:
+		// the model says "every packet other than EOF/ERR is handed to the parser, unchanged but for its first
+		// byte, in order" against exactly this code
+		w("Definition src_readBinlogEvent : list Z := %s.\n(* %s *)", bstr(normSrc(gp, fd.Body)), normSrc(gp, fd.Body))
+		sd := gp.methodDecl("slaveConnection", "startDumpFromBinlogPosition")
+		var loop *ast.ForStmt
+		ast.Inspect(sd.Body, func(x ast.Node) bool {
+			if g, ok := x.(*ast.GoStmt); ok {
+				ast.Inspect(g.Call.Fun, func(y ast.Node) bool {
+					if f, ok := y.(*ast.ForStmt); ok && loop == nil {
+						loop = f
+					}
+					return true
+				})
+			}
+			return true
+		})
+		if loop == nil {
+			die("reader loop not found in startDumpFromBinlogPosition")
+		}
+		w("Definition src_reader_loop : list Z := %s.\n(* %s *)", bstr(normSrc(gp, loop)), normSrc(gp, loop))
 	}
 	{
 		fd := gp.methodDecl("Streamer", "parseEvents")
@@ -928,6 +949,53 @@ func main() {
 		w("Definition error_filter_cases : list (list Z) := [%s]. (* %s *)", strings.Join(mapStr(conds, bstr), "; "), strings.Join(conds, " | "))
 	}
 	writeIfChanged(filepath.Join(gen, "Structure.v"), s.Bytes())
+}
+
+// normSrc prints a statement with the logging calls (_log.Xxx(...)) removed and white space collapsed.
+func normSrc(p *pkg, n ast.Node) string {
+	isLog := func(st ast.Stmt) bool {
+		es, ok := st.(*ast.ExprStmt)
+		if !ok {
+			return false
+		}
+		ce, ok := es.X.(*ast.CallExpr)
+		if !ok {
+			return false
+		}
+		return strings.HasPrefix(p.exprString(ce.Fun), "_log.")
+	}
+	filter := func(list []ast.Stmt) []ast.Stmt {
+		var out []ast.Stmt
+		for _, st := range list {
+			if !isLog(st) {
+				out = append(out, st)
+			}
+		}
+		return out
+	}
+	var saved []func()
+	ast.Inspect(n, func(x ast.Node) bool {
+		switch b := x.(type) {
+		case *ast.BlockStmt:
+			old := b.List
+			b.List = filter(b.List)
+			saved = append(saved, func() { b.List = old })
+		case *ast.CaseClause:
+			old := b.Body
+			b.Body = filter(b.Body)
+			saved = append(saved, func() { b.Body = old })
+		case *ast.CommClause:
+			old := b.Body
+			b.Body = filter(b.Body)
+			saved = append(saved, func() { b.Body = old })
+		}
+		return true
+	})
+	txt := p.exprString(n)
+	for _, f := range saved {
+		f()
+	}
+	return strings.Join(strings.Fields(txt), " ")
 }
 
 func mapStr(l []string, f func(string) string) []string {
